@@ -20,7 +20,7 @@ RULE = (
 ASSUMPTIONS = ["depth <= 4, <= 7 histories per tree"]
 MIN_DECIDING = {"references_checked": 100, "child_root_vs_parent_entry": 50, "write_order_checked": 50}
 
-SKEL = ["K", "KA", "K A", "K/KK", "K/KK/KKK", "K/KK/KKK/K4", "K/sib", "S", "S/T", "S/T ", "plain", "skipdir", "skipdir/H", ".hid", ".hid/N", "dot.", "dot./x._y", "\u00fc\u65e5", "CamA", "CamB", "CamA/Clips", "CamB/Clips"]
+SKEL = ["K", "KA", "K A", "K/KK", "K/KK/KKK", "K/KK/KKK/K4", "K/sib", "S", "S/T", "S/T ", "plain", "skipdir", "skipdir/H", ".hid", ".hid/N", "dot.", "dot./x._y", "\u00fc\u65e5", "CamA", "CamB", "CamA/Clips", "CamB/Clips", "Cafe\u0301_A001", "Cafe\u0301_A001/in", "nfd/Mu\u0308ller", "nfd"]
 
 
 def budget(tier):
